@@ -252,6 +252,16 @@ def select(sel, shape):
         rs = _axis(sel['r'], nr)
         cs = _axis(sel['c'], nc)
         return [(r, c) for r in rs for c in cs], (len(rs), len(cs))
+    if k == 'sub':
+        # a slice of a slice: numpy-style 0-based, half-open indexing relative to the rows / columns the base selects
+        base_cells, base_shape = select(sel['base'], shape)
+        if base_shape is None:
+            raise ModelError("sub-slice of a list")
+        rows = sorted(set(r for r, _ in base_cells))
+        cols = sorted(set(c for _, c in base_cells))
+        (a, b), (c0, c1) = sel['sub']
+        rs, cs = rows[a:b], cols[c0:c1]
+        return [(r, c) for r in rs for c in cs], (len(rs), len(cs))
     if k == 'list':
         cells = []
         for i, j in sel['cells']:
